@@ -35,6 +35,8 @@ pub enum Base {
 	OddCa(OddCa),
 	/// a SubjectPublicKeyInfo / PKCS#8 document around an unusual AlgorithmIdentifier
 	OddKey(OddKey),
+	/// a validly signed request with unusual subject values and requested extensions
+	OddCsr(OddCa),
 }
 
 /// Key documents that a generic DER parser accepts but whose AlgorithmIdentifier (OID x parameters
@@ -148,6 +150,10 @@ pub struct OddCa {
 	#[serde(default)]
 	pub serial_raw: bool,
 	pub eku_arcs: Vec<u64>,
+	/// content octets of one more KeyPurposeId, as they are (overlong arcs, arcs beyond 64 bits, a
+	/// dangling continuation bit, empty)
+	#[serde(default)]
+	pub eku_raw: Option<Hex>,
 	pub fill: u8,
 }
 
@@ -160,10 +166,17 @@ pub fn odd_ca() -> BoxedStrategy<OddCa> {
 			prop::option::of((prop::sample::select(vec![12u8, 22, 4, 2, 5, 48]), proptest::collection::vec(any::<u8>(), 0..8))),
 			proptest::collection::vec(any::<u8>(), 0..24),
 			proptest::collection::vec(any::<u64>(), 0..4),
-			(any::<u8>(), prop::bool::weighted(0.3)),
+			(any::<u8>(), prop::bool::weighted(0.3), prop::option::weighted(0.3, prop_oneof![
+				proptest::collection::vec(any::<u8>(), 0..14),
+				// an arc of 2^64 and more; a last octet with the continuation bit set
+				Just(vec![0x2b, 0x82, 0x80, 0x80, 0x80, 0x80, 0x80, 0x80, 0x80, 0x80, 0x00, 0x01]),
+				Just(vec![0x2b, 0x06, 0x01, 0xff, 0xff, 0xff, 0xff, 0xff, 0xff, 0xff, 0xff, 0xff, 0x7f]),
+				Just(vec![0x2b, 0x06, 0x01, 0x85]),
+				Just(vec![0x80, 0x01]),
+			])),
 		),
 	)
-		.prop_map(|((key, nc_ip_lens, nc_on_excluded, san_ip_lens, path_len, key_usage), (sv, other_name, serial, eku_arcs, (fill, serial_raw)))| OddCa {
+		.prop_map(|((key, nc_ip_lens, nc_on_excluded, san_ip_lens, path_len, key_usage), (sv, other_name, serial, eku_arcs, (fill, serial_raw, eku_raw)))| OddCa {
 			key,
 			nc_ip_lens,
 			nc_on_excluded,
@@ -175,12 +188,14 @@ pub fn odd_ca() -> BoxedStrategy<OddCa> {
 			serial: Hex(serial),
 			serial_raw,
 			eku_arcs,
+			eku_raw: eku_raw.map(Hex),
 			fill,
 		})
 		.boxed()
 }
 
-pub fn forge_odd_ca(o: &OddCa) -> Result<Vec<u8>, String> {
+/// (extensions, subject Name) of an odd certificate / request.
+fn odd_parts(o: &OddCa, for_csr: bool) -> (Vec<Vec<u8>>, Vec<u8>) {
 	use crate::der::{enc_oid, enc_seq, enc_tlv};
 	use crate::forge::*;
 	use crate::x509::*;
@@ -190,13 +205,15 @@ pub fn forge_odd_ca(o: &OddCa) -> Result<Vec<u8>, String> {
 	if !o.path_len.0.is_empty() {
 		bc.push(enc_tlv(0x02, &o.path_len.0));
 	}
-	exts.push(enc_ext(OID_BC, true, &enc_seq(&bc)));
+	if !for_csr {
+		exts.push(enc_ext(OID_BC, true, &enc_seq(&bc)));
+	}
 	if !o.key_usage.0.is_empty() {
 		let mut ku = o.key_usage.0.clone();
 		ku[0] %= 8;
 		exts.push(enc_ext(OID_KU, true, &enc_tlv(0x03, &ku)));
 	}
-	if !o.nc_ip_lens.is_empty() {
+	if !o.nc_ip_lens.is_empty() && !for_csr {
 		let subtrees: Vec<u8> = o.nc_ip_lens.iter().map(|l| enc_seq(&[enc_tlv(0x87, &vec![o.fill; *l as usize])])).collect::<Vec<_>>().concat();
 		let part = enc_tlv(if o.nc_on_excluded { 0xa1 } else { 0xa0 }, &subtrees);
 		exts.push(enc_ext(OID_NC, true, &enc_seq(&[part])));
@@ -209,12 +226,22 @@ pub fn forge_odd_ca(o: &OddCa) -> Result<Vec<u8>, String> {
 	if !sans.is_empty() {
 		exts.push(enc_ext(OID_SAN, false, &enc_seq(&sans)));
 	}
-	if !o.eku_arcs.is_empty() {
-		let mut arcs = vec![1u64, 3];
-		arcs.extend(&o.eku_arcs);
-		exts.push(enc_ext(OID_EKU, false, &enc_seq(&[enc_oid(&arcs), enc_oid(&[1, 3, 6, 1, 5, 5, 7, 3, 1])])));
+	if !o.eku_arcs.is_empty() || o.eku_raw.is_some() {
+		let mut purposes = Vec::new();
+		if !o.eku_arcs.is_empty() {
+			let mut arcs = vec![1u64, 3];
+			arcs.extend(&o.eku_arcs);
+			purposes.push(enc_oid(&arcs));
+		}
+		purposes.push(enc_oid(&[1, 3, 6, 1, 5, 5, 7, 3, 1]));
+		if let Some(raw) = &o.eku_raw {
+			purposes.push(enc_tlv(0x06, &raw.0));
+		}
+		exts.push(enc_ext(OID_EKU, false, &enc_seq(&purposes)));
 	}
-	exts.push(enc_ext(OID_SKI, false, &enc_octets(&[o.fill; 20])));
+	if !for_csr {
+		exts.push(enc_ext(OID_SKI, false, &enc_octets(&[o.fill; 20])));
+	}
 	// subject with arbitrary value tags / contents
 	let types: [&[u64]; 4] = [&[2, 5, 4, 3], &[2, 5, 4, 10], &[2, 5, 4, 6], &[1, 2, 840, 113549, 1, 9, 1]];
 	let rdns: Vec<Vec<u8>> = o
@@ -223,7 +250,13 @@ pub fn forge_odd_ca(o: &OddCa) -> Result<Vec<u8>, String> {
 		.enumerate()
 		.map(|(i, (tag, content))| enc_tlv(0x31, &enc_seq(&[enc_oid(types[i % 4]), enc_tlv(*tag, &content.0)])))
 		.collect();
-	let name_der = enc_seq(&rdns);
+	(exts, enc_seq(&rdns))
+}
+
+pub fn forge_odd_ca(o: &OddCa) -> Result<Vec<u8>, String> {
+	use crate::der::{enc_seq, enc_tlv};
+	use crate::forge::*;
+	let (exts, name_der) = odd_parts(o, false);
 	let fx = keys::fixture(&o.key);
 	let tbs = enc_seq(&[
 		enc_tlv(0xa0, &crate::der::enc_uint(2)),
@@ -238,6 +271,24 @@ pub fn forge_odd_ca(o: &OddCa) -> Result<Vec<u8>, String> {
 	let digest = if o.key.alg == KeyAlg::Ed25519 { None } else { Some(FDigest::Sha256.md()) };
 	let sig = keys::openssl_sign(&fx.pkey, digest, &tbs)?;
 	Ok(enc_seq(&[tbs, sig_alg_der(o.key.alg, FDigest::Sha256), enc_bits(&sig, 0)]))
+}
+
+/// A validly signed request with the same unusual subject values and requested extensions.
+pub fn forge_odd_csr(o: &OddCa) -> Result<Vec<u8>, String> {
+	use crate::der::{enc_oid, enc_seq, enc_tlv};
+	use crate::forge::*;
+	let (exts, name_der) = odd_parts(o, true);
+	let fx = keys::fixture(&o.key);
+	let mut attrs: Vec<Vec<u8>> = Vec::new();
+	if !exts.is_empty() {
+		attrs.push(enc_seq(&[enc_oid(crate::x509::OID_EXT_REQ), enc_tlv(0x31, &enc_seq(&exts))]));
+	}
+	let mut set = crate::der::enc_set_of(&attrs);
+	set[0] = 0xa0;
+	let cri = enc_seq(&[crate::der::enc_uint(0), name_der, fx.spki.clone(), set]);
+	let digest = if o.key.alg == KeyAlg::Ed25519 { None } else { Some(FDigest::Sha256.md()) };
+	let sig = keys::openssl_sign(&fx.pkey, digest, &cri)?;
+	Ok(enc_seq(&[cri, sig_alg_der(o.key.alg, FDigest::Sha256), enc_bits(&sig, 0)]))
 }
 
 #[derive(Clone, Debug, Serialize, Deserialize, PartialEq, Eq, Hash)]
@@ -271,6 +322,7 @@ fn base_bytes(b: &Base) -> Result<Vec<u8>, String> {
 		Base::Random(h) => h.0.clone(),
 		Base::OddCa(o) => forge_odd_ca(o)?,
 		Base::OddKey(o) => forge_odd_key(o)?,
+		Base::OddCsr(o) => forge_odd_csr(o)?,
 	})
 }
 
@@ -412,6 +464,7 @@ pub fn check_bytes(c: &BytesCase, info: &mut CaseInfo) -> Result<(), String> {
 		Base::OddCa(_) => "odd-ca",
 		Base::OddKey(k) if k.form % 4 == 0 => "odd-spki",
 		Base::OddKey(_) => "odd-pkcs8",
+		Base::OddCsr(_) => "odd-csr",
 	}));
 	let mut bytes = base.clone();
 	let n = bytes.len();
@@ -479,6 +532,7 @@ fn bytes_case() -> BoxedStrategy<BytesCase> {
 		1 => proptest::collection::vec(any::<u8>(), 0..200).prop_map(|b| Base::Random(Hex(b))),
 		4 => odd_ca().prop_map(Base::OddCa),
 		3 => odd_key().prop_map(Base::OddKey),
+		3 => odd_ca().prop_map(Base::OddCsr),
 	];
 	(
 		base,
